@@ -640,6 +640,12 @@ def plan(tier, seed, known):
 
 def replay(case):
     res = ShardResult()
+    if "siblings" in case:
+        check_siblings({"scratch": common.scratch_dir("C13r")}, res)
+        vs = [v for v in res.violations if v["case"].get("siblings") == case["siblings"]]
+        for v in vs:
+            print("PROBLEM:", str(v["why"])[:500])
+        return vs
     ns = load(common.scratch_dir("C13r"), "replay")
     print("population:", case["pop"])
     print("selectors:", case["sels"])
